@@ -292,6 +292,10 @@ class CallsMixin:
         if isinstance(s, NoneS):
             self.raise_side(st, "TypeError", z3.BoolVal(True))
             raise DeadPath()
+        if isinstance(s, RealS):
+            # truncation toward zero
+            fl = z3.ToInt(v.d)
+            return V.vint(z3.If(v.d >= 0, fl, z3.If(z3.ToReal(fl) == v.d, fl, fl + 1)))
         if isinstance(s, StrS):
             self.ctx.assumptions.add("int(s): ValueError unless s is a decimal literal (DECOK); value PYINT(s); total on \\d+ strings")
             self.raise_side(st, "ValueError", z3.Not(DECOK(v.d)))
@@ -488,7 +492,7 @@ class CallsMixin:
         elt, target, it, ifs = self.gen_parts(g)
         sub = st.sub({}, g.env)
         itv = self.eval(it, sub)
-        items = self.static_items(itv)
+        items = self.static_items(itv, sub)
         if items is None:
             return None
         out = []
@@ -505,7 +509,14 @@ class CallsMixin:
         st.pc = sub.pc
         return out
 
-    def static_items(self, itv: Val):
+    def static_items(self, itv: Val, st=None):
+        if isinstance(itv.shape, UnionS) and st is not None:
+            tups = [i for i, a in enumerate(itv.shape.alts) if isinstance(a, TupS)]
+            others = [a for a in itv.shape.alts if not isinstance(a, TupS)]
+            if len(tups) == 1 and all(isinstance(a, (IntS, RealS, BoolS, NoneS)) for a in others):
+                # iterating an int / None raises TypeError
+                self.raise_side(st, "TypeError", itv.d[0] != tups[0])
+                return list(itv.d[1][tups[0]].d)
         if isinstance(itv.shape, TupS):
             return list(itv.d)
         if isinstance(itv.shape, ConcS) and isinstance(itv.d, (tuple, list)):
@@ -972,6 +983,10 @@ class CallsMixin:
         if isinstance(v.shape, OptS) and v.shape.inner == sh:
             self.ctx.oblige(f"L{self.cur_line}/call:{c.name}/arg-{p}-not-None", st, z3.Not(v.d[0]), kind="safety")
             return v.d[1]
+        if isinstance(v.shape, OptS) and isinstance(sh, UnionS) and any(a == v.shape.inner for a in sh.alts) \
+                and not any(isinstance(a, NoneS) for a in sh.alts):
+            self.ctx.oblige(f"L{self.cur_line}/call:{c.name}/arg-{p}-not-None", st, z3.Not(v.d[0]), kind="safety")
+            return V.coerce(v.d[1], sh)
         raise OutOfSubset(f"argument {p} of {c.name}: cannot pass {v.shape} as {sh}")
 
     # ------------------------------------------------------------------ spec evaluation
